@@ -221,7 +221,7 @@ class CallGraph:
             return res, (None if res else (gap or "no callable inside %s" % f.text(i)))
         if k == "call":
             # element access on a container of callables: resolve the container
-            if n.get("op") in ("[]", "*", "->") or n.get("cname") in ("at", "second", "get", "value"):
+            if n.get("op") in ("[]", "*", "->") or n.get("cname") in ("at", "second", "get", "value", "find", "begin", "cbegin", "front", "back", "lower_bound", "equal_range"):
                 return self.resolve_callable(f, n.get("recv", -1), depth + 1, seen)
             # a library function returning a callable: follow its return values
             cu = n.get("cusr")
